@@ -134,3 +134,54 @@ proof fn lemma_members_len(s: Seq<char>, a: Seq<char>)
         }
     }
 }
+// ---- C04: the Jaccard gate for one-edit neighbours.  If A and B differ by at most one member each way and A has at least three
+// members, then 2|A n B| >= |A u B|:  |A n B| >= |A| - 1 >= 2, |A u B| <= |A n B| + 2
+// all but at most one (x) of the first n members of a are members of b  ==>  common >= n - 1
+proof fn lemma_common_all_but_one(a: Seq<char>, b: Seq<char>, x: char, n: int)
+    requires 0 <= n <= a.len(), a.no_duplicates(), forall|k: int| 0 <= k < n ==> b.contains(#[trigger] a[k]) || a[k] == x
+    ensures common(a, b, n) >= n - 1, (forall|k: int| 0 <= k < n ==> a[k] != x) ==> common(a, b, n) == n
+    decreases n
+{
+    if n > 0 {
+        lemma_common_all_but_one(a, b, x, n - 1);
+        if a[n - 1] == x && !b.contains(x) {
+            assert forall|k: int| 0 <= k < n - 1 implies a[k] != x by { assert(a[k] != a[n - 1]); }
+        }
+    }
+}
+proof fn lemma_jac_gate_near(a: Seq<char>, b: Seq<char>, x: char, z: char, c1: char, c2: char, c3: char)
+    requires 1 <= b.len(), 1 <= a.len(), a.len() < 0x10_0000, b.len() < 0x10_0000,
+        forall|y: char| a.contains(y) ==> b.contains(y) || y == x, forall|y: char| b.contains(y) ==> a.contains(y) || y == z,
+        a.contains(c1), a.contains(c2), a.contains(c3), c1 != c2, c1 != c3, c2 != c3,
+    ensures forall|sim: f64| jac_sim_is(sim, a, b) ==> jac_gate((1.0f64).sub_spec(sim))
+{
+    assert forall|sim: f64| jac_sim_is(sim, a, b) implies jac_gate((1.0f64).sub_spec(sim)) by {
+        let (s1, s2) = choose|s1: Seq<char>, s2: Seq<char>| sorted_strict(s1) && sorted_strict(s2)
+            && (forall|x: char| s1.contains(x) <==> a.contains(x)) && (forall|x: char| s2.contains(x) <==> b.contains(x)) && sim == merge_sim(s1, s2);
+        lemma_strict_no_dup(s1); lemma_strict_no_dup(s2);
+        lemma_common_sym(s1, s2, s1.len() as int);
+        assert(s1.take(s1.len() as int) =~= s1);
+        // |s1 n s2| >= |s1| - 1 and >= |s2| - 1
+        assert forall|k: int| 0 <= k < s1.len() implies s2.contains(#[trigger] s1[k]) || s1[k] == x by { assert(s1.contains(s1[k])); }
+        lemma_common_all_but_one(s1, s2, x, s1.len() as int);
+        assert forall|k: int| 0 <= k < s2.len() implies s1.contains(#[trigger] s2[k]) || s2[k] == z by { assert(s2.contains(s2[k])); }
+        lemma_common_all_but_one(s2, s1, z, s2.len() as int);
+        // |s1| >= 3
+        lemma_three_members(s1, c1, c2, c3);
+        lemma_members_len(s1, a); lemma_members_len(s2, b);
+        lemma_sim_range(s1, s2);
+        let i = common(s1, s2, s1.len() as int) as int; let u = s1.len() + s2.len() - i;
+        assert(i >= 2 && s1.len() <= i + 1 && s2.len() <= i + 1);
+        gax::ax_jac_gate_pass(i, u);
+    }
+}
+// a duplicate-free sequence with three different members has at least three entries
+proof fn lemma_three_members(s: Seq<char>, c1: char, c2: char, c3: char)
+    requires s.no_duplicates(), s.contains(c1), s.contains(c2), s.contains(c3), c1 != c2, c1 != c3, c2 != c3
+    ensures s.len() >= 3
+{
+    let i1 = choose|i: int| 0 <= i < s.len() && s[i] == c1;
+    let i2 = choose|i: int| 0 <= i < s.len() && s[i] == c2;
+    let i3 = choose|i: int| 0 <= i < s.len() && s[i] == c3;
+    assert(i1 != i2 && i1 != i3 && i2 != i3);
+}
